@@ -1044,8 +1044,8 @@ TimerFire(i) ==
                        /\ hst' = HAccepted(H1, a, <<i, k>>)
                   ELSE /\ tmr' = [tmr EXCEPT ![i] = [@ EXCEPT !.k = k, !.st = "ended", !.dl = -1]]
                        /\ hst' = H1 /\ act' = act
-       [] kind = "delayed_exec" ->
-            /\ tmr' = [tmr EXCEPT ![i] = [@ EXCEPT !.k = k, !.st = "ended", !.dl = -1]]
+       [] kind = "delayed_exec" ->   \* the caller's future starts running; it may suspend (st "body") before it is done
+            /\ tmr' = [tmr EXCEPT ![i] = [@ EXCEPT !.k = k, !.st = "body", !.dl = -1]]
             /\ hst' = H1 /\ act' = act
   /\ UNCHANGED <<hnd, cli, rsp, reg, now>>
 
@@ -1063,8 +1063,14 @@ TimerEnd(i) ==
   /\ tmr' = [tmr EXCEPT ![i] = [@ EXCEPT !.st = "ended", !.dl = -1, !.hold = NoHold]]
   /\ UNCHANGED <<act, hnd, cli, rsp, reg, now, hst>>
 
-TimerStep(i) == TimerStart(i) \/ TimerFire(i) \/ TimerFlushed(i) \/ TimerEnd(i)
-TimerCanStep(i) == tmr[i].st \in {"new", "aborted"} \/ TimerDue(i) \/ TimerFlushReady(i)
+\* the future given to delayed_exec runs to its end (it is part of the abortable timer task: not after the actor is gone)
+TimerBodyEnd(i) ==
+  /\ tmr[i].st = "body"
+  /\ tmr' = [tmr EXCEPT ![i] = [@ EXCEPT !.st = "ended"]]
+  /\ UNCHANGED <<act, hnd, cli, rsp, reg, now, hst>>
+
+TimerStep(i) == TimerStart(i) \/ TimerFire(i) \/ TimerFlushed(i) \/ TimerEnd(i) \/ TimerBodyEnd(i)
+TimerCanStep(i) == tmr[i].st \in {"new", "aborted", "body"} \/ TimerDue(i) \/ TimerFlushReady(i)
 
 -----------------------------------------------------------------------------
 (* Clock                                                                    *)
